@@ -478,6 +478,8 @@ class StreamResetOutgoingParam:
 
     @classmethod
     def parse(cls, data: bytes) -> "StreamResetOutgoingParam":
+        if len(data) < 12 or len(data) % 2:
+            raise ValueError("Outgoing SSN Reset Request parameter length is invalid")
         request_sequence, response_sequence, last_tsn = unpack_from("!LLL", data)
         streams = []
         for pos in range(12, len(data), 2):
@@ -501,6 +503,8 @@ class StreamAddOutgoingParam:
 
     @classmethod
     def parse(cls, data: bytes) -> "StreamAddOutgoingParam":
+        if len(data) < 8:
+            raise ValueError("Add Outgoing Streams Request parameter is too short")
         request_sequence, new_streams, reserved = unpack_from("!LHH", data)
         return cls(request_sequence=request_sequence, new_streams=new_streams)
 
@@ -515,6 +519,8 @@ class StreamResetResponseParam:
 
     @classmethod
     def parse(cls, data: bytes) -> "StreamResetResponseParam":
+        if len(data) < 8:
+            raise ValueError("Re-configuration Response parameter is too short")
         response_sequence, result = unpack_from("!LL", data)
         return cls(response_sequence=response_sequence, result=result)
 
@@ -1042,8 +1048,8 @@ class RTCSctpTransport(AsyncIOEventEmitter):
                 if cls is not None:
                     try:
                         reconfig_param = cls.parse(param[1])
-                    except struct_error:
-                        # the parameter is too short, ignore it
+                    except ValueError:
+                        # the parameter is malformed, ignore it
                         continue
                     await self._receive_reconfig_param(reconfig_param)
 
